@@ -152,40 +152,66 @@ func c02Defaults(p *Prog, r *Report, rule string) {
 			}
 		}
 		okLvl, okId, okSeq := false, false, false
-		ast.Inspect(fi.Decl.Body, func(x ast.Node) bool {
-			if kv, ok := x.(*ast.KeyValueExpr); ok {
-				if k, ok := kv.Key.(*ast.Ident); ok {
-					switch k.Name {
-					case "IsoLevel":
-						okLvl = objOf(info, kv.Value) == lvlParam && lvlParam != nil
-					case "Id":
-						v := ast.Unparen(kv.Value)
-						if o := objOf(info, v); o != nil {
-							if d := singleDef(info, fi.Decl.Body, o); d != nil {
-								v = ast.Unparen(d)
-							}
-						}
-						if c, ok := v.(*ast.CallExpr); ok && p.callIs(fi.Pkg, c, kGenerate) {
-							okId = true
-						}
-					case "Seq":
-						v := ast.Unparen(kv.Value)
-						if o := objOf(info, v); o != nil {
-							if d := singleDef(info, fi.Decl.Body, o); d != nil {
-								v = ast.Unparen(d)
-							}
-						}
-						if c, ok := v.(*ast.CallExpr); ok && p.callIs(fi.Pkg, c, kSeqNext) {
-							okSeq = true
-						}
-					}
+		// the transaction record handed to the registry, wherever it is built (helpers and closures run by a
+		// locking helper are spliced in); its fields are followed back to where their values come from
+		f := p.FlatInl(fi)
+		allAre := func(node int, e ast.Expr, pred func(ast.Expr) bool) bool {
+			os := f.Origins(node, e)
+			if len(os) == 0 {
+				return false
+			}
+			for _, o := range os {
+				if !pred(o) {
+					return false
 				}
 			}
 			return true
-		})
+		}
+		for _, gn := range f.Nodes {
+			if gn.Ast == nil {
+				continue
+			}
+			ast.Inspect(gn.Ast, func(x ast.Node) bool {
+				if _, isLit := x.(*ast.FuncLit); isLit {
+					return false
+				}
+				cl, ok := x.(*ast.CompositeLit)
+				if !ok {
+					return true
+				}
+				if tv, ok := info.Types[cl]; !ok || !strings.HasSuffix(tv.Type.String(), "internal/model.Transaction") {
+					return true
+				}
+				for _, el := range cl.Elts {
+					kv, ok := el.(*ast.KeyValueExpr)
+					if !ok {
+						continue
+					}
+					k, ok := kv.Key.(*ast.Ident)
+					if !ok {
+						continue
+					}
+					switch k.Name {
+					case "IsoLevel":
+						okLvl = lvlParam != nil && allAre(gn.ID, kv.Value, func(o ast.Expr) bool { return f.CanonObj(objOf(info, o)) == lvlParam })
+					case "Id":
+						okId = allAre(gn.ID, kv.Value, func(o ast.Expr) bool {
+							c, ok := o.(*ast.CallExpr)
+							return ok && p.callIs(fi.Pkg, c, kGenerate)
+						})
+					case "Seq":
+						okSeq = allAre(gn.ID, kv.Value, func(o ast.Expr) bool {
+							c, ok := o.(*ast.CallExpr)
+							return ok && p.callIs(fi.Pkg, c, kSeqNext)
+						})
+					}
+				}
+				return true
+			})
+		}
 		r.Check(okLvl && okId && okSeq, rule, kTxBegin+"#registers", p.pos(fi.Decl), "registers (generated id, requested level, fresh snapshot point)",
 			fmt.Sprintf("Begin does not register the transaction with a generated id (%v), the requested level (%v) and a fresh sequence number (%v)", okId, okLvl, okSeq))
-		f := p.FlatOf(fi)
+		f = p.FlatInl(fi)
 		for _, s := range f.CallSites(kTxRepoStore) {
 			f.SiteConsumed(r, rule, kTxBegin+"#store-error", fi, s, flowOpts{Class: true})
 		}
